@@ -27,12 +27,14 @@ CONSTANTS T,            \* topology record (Metric)
           Seeded,       \* BOOLEAN: a seed was configured
           TSet,         \* solve timeouts explored (ticks; one iteration = one tick)
           MaxCalls,     \* bound on the number of API calls in a history
-          Worlds,       \* set of validity sets explored
+          WorldPairs,   \* set of <<V1, V2>>: the validity sets of the two checkers a caller may install
           Region,       \* the bounds of the space: uniform samples fall in it (C04)
           Problems,     \* set of <<P1, P2>>, each [start |-> point, goal |-> set of points]
+          SetupChoices, \* set of <<problem, checker>> pairs a history may pass to setup
           ValidateRoots, RestoreRng
 
-VARIABLES valid,   \* the checker: set of valid points
+VARIABLES worlds,  \* <<V1, V2>>: what each of the two checker objects accepts
+          vc,      \* the installed checker: 0 (none), 1 or 2
           probs,   \* the two problem definitions a caller may install
           pd,      \* installed problem: 0 (none), 1 or 2
           tree,    \* <<>> before setup
@@ -45,8 +47,11 @@ VARIABLES valid,   \* the checker: set of valid points
           ncalls,
           hist     \* replay script (not part of the VIEW)
 
-vars == <<valid, probs, pd, tree, acc, pc, now, deadline, rng, src, res, ncalls, hist>>
-view == <<valid, probs, pd, tree, acc, pc, now, deadline, rng, src, res, ncalls>>
+vars == <<worlds, vc, probs, pd, tree, acc, pc, now, deadline, rng, src, res, ncalls, hist>>
+view == <<worlds, vc, probs, pd, tree, acc, pc, now, deadline, rng, src, res, ncalls>>
+
+\* what the installed checker accepts (setup installs a problem definition AND a checker)
+valid == worlds[IF vc = 0 THEN 1 ELSE vc]
 
 None == [kind |-> "none", path |-> <<>>]
 Ret(k) == [kind |-> k, path |-> <<>>]
@@ -55,7 +60,7 @@ Node(s, p) == [s |-> s, p |-> p, c |-> 0]
 Kinds == CASE Bias = "0" -> {"u"} [] Bias = "1" -> {"g"} [] OTHER -> {"g", "u"}
 
 Init ==
-  /\ valid \in Worlds
+  /\ worlds \in WorldPairs /\ vc = 0
   /\ probs \in Problems
   /\ pd = 0 /\ tree = <<>> /\ acc = {} /\ pc = "idle"
   /\ now = 0 /\ deadline = 0
@@ -65,18 +70,19 @@ Init ==
   /\ hist = <<>>
 
 (***************************************************************************)
-(* setup(problem i, checker): installs the problem, clears the tree,       *)
+(* setup(problem i, checker k): installs both, clears the tree,            *)
 (* pushes the start as root.  No validity query.                           *)
 (***************************************************************************)
-Setup(i) ==
+Setup(i, k) ==
   /\ pc = "idle" /\ ncalls < MaxCalls
-  /\ pd' = i
+  /\ <<i, k>> \in SetupChoices
+  /\ pd' = i /\ vc' = k
   /\ tree' = <<Node(probs[i].start, 0)>>
   /\ acc' = {}
   /\ res' = None
   /\ ncalls' = ncalls + 1
-  /\ hist' = Append(hist, [c |-> "setup", i |-> i])
-  /\ UNCHANGED <<valid, probs, pc, now, deadline, rng, src>>
+  /\ hist' = Append(hist, [c |-> "setup", i |-> i, v |-> k])
+  /\ UNCHANGED <<worlds, probs, pc, now, deadline, rng, src>>
 
 (***************************************************************************)
 (* solve(t): uninitialised check first (the generator is not touched on    *)
@@ -88,10 +94,10 @@ SolveBegin(t) ==
   /\ hist' = Append(hist, [c |-> "solve", t |-> t])
   /\ IF pd = 0
        THEN /\ res' = Ret("uninit")
-            /\ UNCHANGED <<valid, probs, pd, tree, acc, pc, now, deadline, rng, src>>
+            /\ UNCHANGED <<worlds, vc, probs, pd, tree, acc, pc, now, deadline, rng, src>>
      ELSE IF ValidateRoots /\ probs[pd].start \notin valid
        THEN /\ res' = Ret("invalidstart")
-            /\ UNCHANGED <<valid, probs, pd, tree, acc, pc, now, deadline, rng, src>>
+            /\ UNCHANGED <<worlds, vc, probs, pd, tree, acc, pc, now, deadline, rng, src>>
      ELSE /\ res' = None
           /\ pc' = "loop"
           /\ now' = 0
@@ -99,7 +105,7 @@ SolveBegin(t) ==
           /\ src' = IF rng = "seeded" THEN "seeded" ELSE "os"
           /\ rng' = IF rng = "seeded" THEN "taken" ELSE rng
           /\ acc' = IF ValidateRoots THEN acc \cup {probs[pd].start} ELSE acc
-          /\ UNCHANGED <<valid, probs, pd, tree>>
+          /\ UNCHANGED <<worlds, vc, probs, pd, tree>>
 
 Finish(r) ==
   /\ res' = r
@@ -113,7 +119,7 @@ TimeoutReturn ==
   /\ pc = "loop" /\ now > deadline
   /\ Finish(Ret("timeout"))
   /\ hist' = hist
-  /\ UNCHANGED <<valid, probs, pd, tree, acc, now, deadline, src, ncalls>>
+  /\ UNCHANGED <<worlds, vc, probs, pd, tree, acc, now, deadline, src, ncalls>>
 
 (***************************************************************************)
 (* One iteration: sample (goal-biased), nearest, steer, motion check,      *)
@@ -136,10 +142,10 @@ Iterate(kind, q, near) ==
                        THEN Finish([kind |-> "ok", path |-> PathOf(tree', Len(tree'))])
                        ELSE UNCHANGED <<res, pc, rng>>
              ELSE UNCHANGED <<tree, res, pc, rng>>
-  /\ UNCHANGED <<valid, probs, pd, deadline, src, ncalls>>
+  /\ UNCHANGED <<worlds, vc, probs, pd, deadline, src, ncalls>>
 
 Next ==
-  \/ \E i \in 1 .. 2 : Setup(i)
+  \/ \E i \in 1 .. 2, k \in 1 .. 2 : Setup(i, k)
   \/ \E t \in TSet : SolveBegin(t)
   \/ TimeoutReturn
   \/ \E kind \in {"g", "u"}, q \in Pts(T) : \E near \in 1 .. Len(tree) : Iterate(kind, q, near)
